@@ -10,6 +10,9 @@ use gluon::vm::types::VmInt;
 use gluon::vm::ExternModule;
 use gluon::Thread;
 
+pub static GLOBAL_LOG_ON: std::sync::atomic::AtomicBool = std::sync::atomic::AtomicBool::new(false);
+pub static GLOBAL_LOG: std::sync::Mutex<Vec<(i64, i64, i64)>> = std::sync::Mutex::new(Vec::new());
+
 thread_local! {
     pub static STREAM: std::cell::Cell<bool> = std::cell::Cell::new(false);
     pub static LOG: RefCell<Vec<(i64, i64, i64)>> = RefCell::new(Vec::new());
@@ -34,6 +37,10 @@ fn host_log(t: VmInt, i: VmInt, v: VmInt) -> IO<()> {
 
 /// Pure-typed effect: logs `(-1, l, v)` and returns `v`
 fn host_tick(l: VmInt, v: VmInt) -> VmInt {
+    if GLOBAL_LOG_ON.load(std::sync::atomic::Ordering::Relaxed) {
+        GLOBAL_LOG.lock().unwrap().push((-1, l, v));
+        return v;
+    }
     stream(-1, l, v);
     LOG.with(|lg| lg.borrow_mut().push((-1, l, v)));
     v
